@@ -145,6 +145,7 @@ type Exec struct {
 	allocHere  map[string]bool // ref symbols introduced by allocations of this activation
 	recBusy map[string]bool
 	exitHits map[string]int
+	atCallArgs map[string]Val // callee parameter name -> argument, while an at-call clause is evaluated
 	atCallSkipped map[string]bool
 	inferN, inferQueries int
 	inferredNames []string
@@ -689,6 +690,9 @@ func (x *Exec) userInvariants(fr *Frame, l *loopRec) []linv {
 	if l.spec != nil {
 		for _, c := range l.spec.Invariants {
 			c := c
+			if !x.clauseActive(c) {
+				continue // invariant tagged for other properties only
+			}
 			out = append(out, linv{name: c.Name(), eval: func(st *State) (string, error) {
 				x.curLoop = l
 				defer func() { x.curLoop = nil }()
